@@ -272,7 +272,7 @@ def run(ctx):
         A = A.astype(complex) if np.iscomplexobj(A) and np.any(A.imag) or c.get('complex') else A.real.astype(float)
         mats.append((c.get('class', 'corpus'), A, c.get('name', 'corpus'), True))
     # ---- generated matrices
-    nmat = 80 if ctx.quick() else 450
+    nmat = 56 if ctx.quick() else 450
     sizes = [1, 2, 3, 3, 4, 4, 5, 5, 6, 7, 8]
     k = 0
     while len(mats) < len(corpus) + nmat:
